@@ -12,12 +12,24 @@ R18.2 io.write: every stream acquisition happens inside the try whose
       finally runs the cleanup; a closer is registered iff the factory was
       called; cleanup runs exactly once and closes each registered stream
       once; no exception is swallowed
+
+The "valid map link" clause has a part that is a pure function of path
+strings and is decided by abstract evaluation on a table:
+
+R18.3 utils.normrelpath(base, target) designates `target` relative to the
+      directory of `base` for absolute names (and returns `target`
+      unchanged otherwise), and sourcemap.verify_write_sourcemap_args
+      relates output, map and sources through it in the right direction:
+      joining the directory of the referring file with the computed
+      reference gives back the referred file
 """
 from __future__ import annotations
 
 import ast
+import posixpath
 
 from engine.common import AnalysisError
+from engine.absint import Evaluator, Obj, Raised
 from engine.srcindex import need_function
 
 IO_MOD = 'calmjs.parse.io'
@@ -44,6 +56,186 @@ def jumps_in(stmts):
             if isinstance(n, (ast.Return, ast.Break, ast.Continue)):
                 out.append(n)
     return out
+
+
+PATH_FUNCS = ('isabs', 'normpath', 'dirname', 'relpath', 'join', 'basename',
+              'abspath', 'commonprefix', 'split', 'splitext')
+
+
+def path_evaluator(module):
+    fns = {n: getattr(posixpath, n) for n in PATH_FUNCS}
+    fns['map'] = lambda f, xs: [f[1](x) if isinstance(f, tuple) else f(x)
+                                for x in xs]
+    fns['all'] = all
+    fns['any'] = any
+
+    def py_getattr(obj, name, *default):
+        if isinstance(obj, Obj):
+            if obj.has(name):
+                return getattr(obj, name)
+            if default:
+                return default[0]
+            raise AttributeError(name)
+        return getattr(obj, name, *default)
+    fns['getattr'] = py_getattr
+    ev = Evaluator(module, functions=fns, max_steps=100000)
+    ev.constants.update({'sep': '/', 'pardir': '..', 'curdir': '.',
+                         'logger': Obj('Logger', warning=(
+                             'pyfunc', lambda *a, **k: None))})
+    ev.inline_module_functions = True
+    return ev
+
+
+def designates(referrer, ref, referred):
+    """does `ref`, read relative to the directory of `referrer`, name
+    `referred`?"""
+    if not isinstance(ref, str):
+        return False
+    return posixpath.normpath(posixpath.join(
+        posixpath.dirname(referrer), ref)) == posixpath.normpath(referred)
+
+
+def r183(report, index):
+    r3 = report.rule('R18.3', 'relative references between output, map and '
+                     'sources designate the right file (decision table)',
+                     floor=30)
+    utils = index.need('calmjs.parse.utils')
+    nrp = need_function(utils, 'normrelpath')
+    dirs = ['/p/build', '/p/build-maps', '/p/buildx', '/p/build/sub', '/p',
+            '/q/x', '/p/build.src', '/', '/p/./build/../build']
+    n = 0
+    for bd in dirs:
+        for td in dirs:
+            base = posixpath.join(bd, 'out.js')
+            target = posixpath.join(td, 'out.js.map')
+            ev = path_evaluator(utils)
+            try:
+                got, _ = ev.call(nrp, [base, target])
+            except Raised as e:
+                got = 'raises %s' % e.text
+            n += 1
+            r3.check(designates(base, got, target),
+                     'normrelpath %s -> %s' % (bd, td),
+                     'normrelpath(%r, %r)' % (base, target),
+                     'returns %r, which read relative to the directory of '
+                     '%s does not name %s' % (got, base, target),
+                     where='utils.py:normrelpath')
+    for base, target in (('out.js', 'out.js.map'), ('/p/out.js', 'm.map'),
+                         ('rel/out.js', '/p/m.map')):
+        ev = path_evaluator(utils)
+        got, _ = ev.call(nrp, [base, target])
+        r3.check(got == target, 'normrelpath relative %s %s' % (base, target),
+                 'normrelpath(%r, %r)' % (base, target),
+                 'returns %r; names that are not both absolute are '
+                 'documented to be returned unchanged' % (got,),
+                 where='utils.py:normrelpath')
+    sm = index.need('calmjs.parse.sourcemap')
+    vw = need_function(sm, 'verify_write_sourcemap_args')
+    for out, mp, srcs in (
+            ('/p/build/out.js', '/p/build/out.js.map', ['/p/src/a.js']),
+            ('/p/build/out.js', '/p/build-maps/out.js.map',
+             ['/p/build.src/a.js', '/p/build/b.js']),
+            ('/p/build/sub/out.js', '/p/maps/o.map', ['/q/a.js']),
+            ('/p/out.js', '/p/build/deep/er/o.map', ['/p/out.src.js'])):
+        ev = path_evaluator(sm)
+        # normrelpath lives in utils: evaluate it in its own module
+        ev.functions['normrelpath'] = lambda b, t: path_evaluator(
+            utils).call(nrp, [b, t])[0]
+        try:
+            got, _ = ev.call(vw, [[], list(srcs), [], Obj('Stream', name=out),
+                                  Obj('Stream', name=mp)])
+            (fname, _m, gsrcs, _n), url = got
+        except Raised as e:
+            fname, gsrcs, url = 'raises %s' % e.text, [], None
+        except (TypeError, ValueError) as e:
+            raise AnalysisError('verify_write_sourcemap_args returns an '
+                                'unexpected shape: %s' % e)
+        ok = designates(out, url, mp) and designates(mp, fname, out) and \
+            len(gsrcs) == len(srcs) and all(
+                designates(mp, g, s_) for g, s_ in zip(gsrcs, srcs))
+        r3.check(ok, 'write args %s | %s' % (out, mp),
+                 'verify_write_sourcemap_args(output=%s, map=%s, sources=%s)'
+                 % (out, mp, srcs),
+                 'yields sourceMappingURL %r, file %r, sources %r: at least '
+                 'one of them does not designate the file it stands for '
+                 'relative to the file that contains it' % (url, fname,
+                                                           gsrcs),
+                 where='sourcemap.py:verify_write_sourcemap_args')
+    return r3
+
+
+def r184(report, index):
+    """the inline (data URL) form of the link decodes to the source map the
+    lower-level API yields; a text that cannot be encoded fails loudly"""
+    import base64
+    import json
+    r4 = report.rule('R18.4', 'the inline sourceMappingURL decodes, with '
+                     'the declared charset, to the source map itself '
+                     '(decision table)', floor=6)
+    sm = index.need('calmjs.parse.sourcemap')
+    utils = index.need('calmjs.parse.utils')
+    ws = need_function(sm, 'write_sourcemap')
+    nrp = need_function(utils, 'normrelpath')
+    cases = [
+        ('ascii names, utf8 stream', 'utf8', ['alpha', 'beta']),
+        ('non-ASCII names, utf8 stream', 'utf8', ['h\u00e9llo', '\u4f60']),
+        ('non-ASCII names, stream without encoding', None, ['\u00e9']),
+        ('latin-1 names, latin-1 stream', 'latin-1', ['\u00e9t\u00e9']),
+        ('names outside the stream charset', 'ascii', ['h\u00e9llo']),
+        ('names outside latin-1', 'latin-1', ['\u4f60\u597d']),
+    ]
+    for label, enc, names in cases:
+        written = []
+        stream = Obj('Stream', name='/p/out.js', writelines=(
+            'pyfunc', lambda xs: written.extend(xs)), write=(
+            'pyfunc', lambda x: written.append(x)))
+        if enc is not None:
+            stream.encoding = enc
+        ev = path_evaluator(sm)
+        ev.functions['normrelpath'] = lambda b, t: path_evaluator(
+            utils).call(nrp, [b, t])[0]
+        ev.functions['json.dumps'] = json.dumps
+        ev.functions['base64.b64encode'] = base64.b64encode
+        ev.functions['encode_mappings'] = lambda m: ''
+        outcome = None
+        try:
+            ev.call(ws, [[], ['/p/src.js'], list(names), stream, stream])
+        except Raised as e:
+            outcome = 'raises %s' % e.text
+        except AnalysisError:
+            raise
+        except UnicodeError as e:
+            outcome = 'raises %s' % type(e).__name__
+        text = ''.join(x for x in written if isinstance(x, str))
+        encodable = True
+        try:
+            json.dumps(names, ensure_ascii=False).encode(enc or 'utf8')
+        except UnicodeError:
+            encodable = False
+        if not encodable:
+            ok = outcome is not None and 'Unicode' in outcome and \
+                'sourceMappingURL' not in text
+            r4.check(ok, label, 'write_sourcemap inline, %s' % label,
+                     'the map cannot be represented in the charset %r of '
+                     'the stream; instead of the failure propagating, the '
+                     'helper wrote %r (%s)' % (enc, text[:80], outcome),
+                     where='sourcemap.py:write_sourcemap')
+            continue
+        got = None
+        marker = 'sourceMappingURL=data:application/json;base64;charset='
+        if outcome is None and marker in text:
+            head, _, payload = text.partition(marker)[2].partition(',')
+            try:
+                got = json.loads(base64.b64decode(payload).decode(head))
+            except Exception as e:
+                got = 'undecodable (%s)' % type(e).__name__
+        ok = isinstance(got, dict) and got.get('names') == names and \
+            got.get('sources') == ['src.js'] and got.get('version') == 3
+        r4.check(ok, label, 'write_sourcemap inline, %s' % label,
+                 'the data URL decodes to %r (outcome: %s); expected the '
+                 'source map with names %r' % (got, outcome, names),
+                 where='sourcemap.py:write_sourcemap')
+    return r4
 
 
 def run(report, index, tier):
@@ -288,6 +480,11 @@ def run(report, index, tier):
     report.informational.append(
         'observation outside the stated property: cleanup() stops at the '
         'first close() that itself raises')
+    r183(report, index)
+    r184(report, index)
     report.not_decided.append(
-        'text and URL equality clauses (string-valued runtime data)')
-    report.trusted_base += ['CPython ast']
+        'equality of the written text with the printer output and the '
+        'content of the (inline) source map (string-valued runtime data); '
+        'R18.3 decides only the path arithmetic of the link')
+    report.trusted_base += ['CPython ast', 'posixpath (stdlib) as the '
+                            'meaning of os.path functions']
